@@ -3,7 +3,7 @@
    `teq_rt` (identity or bisimilarity, proofs/RtTcBisim.v), for which `teq_laws` holds and the
    annotated output of the checker is `static_typed` (proofs/RtTcSoundTop.v).
    What remains as premises, per program:
-     prog_syn_ok p, rt_syn_ok p : two computable conditions on the parsed program (the types and the
+     prog_syn_ok p, raw_ok p : two computable conditions on the parsed program (the types and the
                                   names are what the parser + expansion produce), evaluated by the
                                   check modules on every program;
      Topo on reachable configurations : the untyped linearity invariant (spec/Topo.v). *)
@@ -87,7 +87,7 @@ Definition topo_runs (p' : program) : Prop :=
 
 (* the initial configuration of an accepted closed program is typed *)
 Theorem initial_typed_tc p p' :
-  typecheck p = Accept p' -> in_fragment p' -> prog_syn_ok p = true -> rt_syn_ok p = true ->
+  typecheck p = Accept p' -> in_fragment p' -> prog_syn_ok p = true -> raw_ok p = true ->
   cfg_typed (p_types p') (p_funs p') (teq_rt (p_types p')) (init_delta p') (init_config p').
 Proof.
   intros Ha Hf PS RS. apply initial_typed; [apply teq_rt_laws|]. apply (tc_annotations_typed_rt p p' Ha PS RS Hf).
@@ -95,7 +95,7 @@ Qed.
 
 (* C01, closed programs, the two polarized modes: no schedule leads to a run-time error *)
 Theorem safety_tc_partial p p' md :
-  typecheck p = Accept p' -> in_fragment p' -> prog_syn_ok p = true -> rt_syn_ok p = true ->
+  typecheck p = Accept p' -> in_fragment p' -> prog_syn_ok p = true -> raw_ok p = true ->
   topo_runs p' -> is_np md = false ->
   forall fuel pick c who e,
     exec_run fuel pick md (p_types p') (p_funs p') (init_config p') <> RError c who e.
@@ -106,7 +106,7 @@ Qed.
 
 (* every reachable configuration is typed *)
 Theorem reachable_typed_tc p p' md c :
-  typecheck p = Accept p' -> in_fragment p' -> prog_syn_ok p = true -> rt_syn_ok p = true ->
+  typecheck p = Accept p' -> in_fragment p' -> prog_syn_ok p = true -> raw_ok p = true ->
   topo_runs p' -> is_np md = false ->
   reachable (p_types p') (p_funs p') md (init_config p') c ->
   exists Δ, init_delta p' ⊆ Δ /\ cfg_typed (p_types p') (p_funs p') (teq_rt (p_types p')) Δ c.
@@ -117,7 +117,7 @@ Qed.
 
 (* C02, asynchronous mode: what is left when a run ends in quiescence *)
 Theorem progress_run_tc_partial p p' :
-  typecheck p = Accept p' -> in_fragment p' -> prog_syn_ok p = true -> rt_syn_ok p = true ->
+  typecheck p = Accept p' -> in_fragment p' -> prog_syn_ok p = true -> raw_ok p = true ->
   topo_runs p' ->
   forall fuel pick c,
     exec_run fuel pick Async (p_types p') (p_funs p') (init_config p') = RQuiescent c ->
@@ -135,7 +135,7 @@ Qed.
 
 (* C02, synchronous mode *)
 Theorem progress_sync_run_tc_partial p p' :
-  typecheck p = Accept p' -> in_fragment p' -> prog_syn_ok p = true -> rt_syn_ok p = true ->
+  typecheck p = Accept p' -> in_fragment p' -> prog_syn_ok p = true -> raw_ok p = true ->
   topo_runs p' ->
   forall fuel pick c,
     exec_run fuel pick Sync (p_types p') (p_funs p') (init_config p') = RQuiescent c ->
@@ -153,19 +153,19 @@ Qed.
 (* ------------------------------------------------------------------ programs that come out of the parser: prog_syn_ok is a theorem
    (proofs/ParseSynOk.v), one computable premise is left *)
 Theorem tc_annotations_typed_parsed txt p p' :
-  parse_string txt = POk p -> typecheck p = Accept p' -> in_fragment p' -> rt_syn_ok p = true ->
+  parse_string txt = POk p -> typecheck p = Accept p' -> in_fragment p' -> raw_ok p = true ->
   static_typed (teq_rt (p_types p')) p'.
 Proof. intros Hp Ha Hf RS. exact (tc_annotations_typed_rt p p' Ha (parse_syn_ok _ _ Hp) RS Hf). Qed.
 
 Theorem safety_parsed_partial txt p p' md :
-  parse_string txt = POk p -> typecheck p = Accept p' -> in_fragment p' -> rt_syn_ok p = true ->
+  parse_string txt = POk p -> typecheck p = Accept p' -> in_fragment p' -> raw_ok p = true ->
   topo_runs p' -> is_np md = false ->
   forall fuel pick c who e,
     exec_run fuel pick md (p_types p') (p_funs p') (init_config p') <> RError c who e.
 Proof. intros Hp Ha Hf RS. exact (safety_tc_partial p p' md Ha Hf (parse_syn_ok _ _ Hp) RS). Qed.
 
 Theorem progress_run_parsed_partial txt p p' :
-  parse_string txt = POk p -> typecheck p = Accept p' -> in_fragment p' -> rt_syn_ok p = true ->
+  parse_string txt = POk p -> typecheck p = Accept p' -> in_fragment p' -> raw_ok p = true ->
   topo_runs p' ->
   forall fuel pick c,
     exec_run fuel pick Async (p_types p') (p_funs p') (init_config p') = RQuiescent c ->
@@ -179,7 +179,7 @@ Theorem progress_run_parsed_partial txt p p' :
 Proof. intros Hp Ha Hf RS. exact (progress_run_tc_partial p p' Ha Hf (parse_syn_ok _ _ Hp) RS). Qed.
 
 Theorem progress_sync_run_parsed_partial txt p p' :
-  parse_string txt = POk p -> typecheck p = Accept p' -> in_fragment p' -> rt_syn_ok p = true ->
+  parse_string txt = POk p -> typecheck p = Accept p' -> in_fragment p' -> raw_ok p = true ->
   topo_runs p' ->
   forall fuel pick c,
     exec_run fuel pick Sync (p_types p') (p_funs p') (init_config p') = RQuiescent c ->
@@ -200,7 +200,7 @@ Definition syn_premises_text (txt : string) : syn_verdict :=
     match typecheck p with
     | Accept p' =>
       if in_fragment_b p' then
-        (if prog_syn_ok p then (if rt_syn_ok p then SY_ok else SY_names_not_syn) else SY_types_not_syn)
+        (if prog_syn_ok p then (if raw_ok p then SY_ok else SY_names_not_syn) else SY_types_not_syn)
       else SY_outside_fragment
     | _ => SY_rejected
     end
@@ -210,13 +210,13 @@ Definition syn_premises_text (txt : string) : syn_verdict :=
 (* where the answer is SY_ok the annotated output of the typechecker is typed in the run-time judgement *)
 Theorem syn_premises_sound txt : syn_premises_text txt = SY_ok ->
   exists p p', parse_string txt = POk p /\ typecheck p = Accept p' /\ in_fragment p' /\
-               prog_syn_ok p = true /\ rt_syn_ok p = true /\
+               prog_syn_ok p = true /\ raw_ok p = true /\
                static_typed (teq_rt (p_types p')) p'.
 Proof.
   unfold syn_premises_text. destruct (parse_string txt) as [p| | |]; try discriminate.
   destruct (typecheck p) as [p'| | |] eqn:Et; try discriminate.
   destruct (in_fragment_b p') eqn:Ef; [|discriminate]. apply in_fragment_b_sound in Ef.
-  destruct (prog_syn_ok p) eqn:PS; [|discriminate]. destruct (rt_syn_ok p) eqn:RS; [|discriminate].
+  destruct (prog_syn_ok p) eqn:PS; [|discriminate]. destruct (raw_ok p) eqn:RS; [|discriminate].
   intros _. exists p, p'. split; [reflexivity|]. split; [exact Et|]. split; [exact Ef|].
   split; [exact PS|]. split; [exact RS|]. apply (tc_annotations_typed_rt p p' Et PS RS Ef).
 Qed.
@@ -224,7 +224,7 @@ Qed.
 (* ------------------------------------------------------------------ the premises hold of the examples *)
 Definition text_syn_ok (txt : string) : bool :=
   match parse_string txt with
-  | POk p => prog_syn_ok p && rt_syn_ok p
+  | POk p => prog_syn_ok p && raw_ok p
   | _ => false
   end.
 
